@@ -11,6 +11,7 @@ import (
 	"math/rand"
 	"os"
 	"os/exec"
+	"regexp"
 	"strconv"
 	"strings"
 
@@ -322,7 +323,7 @@ func crashAt(c *fw.Case, h *roles.History, histFile string, hidx int, ref0 []ptr
 	}
 	// determinism of the trace up to the injection point
 	for i := 0; i <= inj.at && i < len(res.Events); i++ {
-		if res.Events[i].Sys != ref0[i].Sys || res.Events[i].Path != ref0[i].Path {
+		if res.Events[i].Sys != ref0[i].Sys || NormPath(res.Events[i].Path) != NormPath(ref0[i].Path) {
 			c.Count("trace_diverged", 1)
 			return
 		}
@@ -398,3 +399,8 @@ func keys(m map[int]bool) []int {
 	}
 	return out
 }
+
+var tmpMetaRe = regexp.MustCompile(`\.tmp-metadata-\d+`)
+
+// NormPath removes the random part of temporary metadata file names so traces of two runs compare.
+func NormPath(p string) string { return tmpMetaRe.ReplaceAllString(p, ".tmp-metadata-*") }
